@@ -104,12 +104,8 @@ func (c *Ctx) errorDisciplineScopes() []errScope {
 	sort.Slice(fis, func(i, j int) bool { return fis[i].Obj.FullName() < fis[j].Obj.FullName() })
 	var out []errScope
 	for _, fi := range fis {
-		short := fi.Obj.Name()
-		if sig := fi.Obj.Type().(*types.Signature); sig.Recv() != nil {
-			if n, ok := derefNamedT(sig.Recv().Type()); ok {
-				short = n + "." + short
-			}
-		}
+		// (the name the function had at the pinned commit, if it was renamed since: the idiom tables are keyed by it)
+		short := c.tableName(fi)
 		out = append(out, errScope{fi, nil, short, fi.Decl.Body, fi.Decl.Type})
 		ast.Inspect(fi.Decl.Body, func(n ast.Node) bool {
 			if l, ok := n.(*ast.FuncLit); ok {
@@ -775,7 +771,7 @@ func (c *Ctx) preconditionRejections(prefix string) {
 			// the condition must not depend on a call with effects (API reads)
 			n++
 			name := fi.Obj.Name() + ": " + clip(types.ExprString(ifs.Cond), 60)
-			why, ok := reviewed[fi.Obj.Name()]
+			why, ok := reviewed[pinnedName(fi.Obj)]
 			c.Check(ok, prefix+"-precondition-rejection-reviewed", name, ifs.Pos(), "reviewed: "+why,
 				"a function reachable from sync rejects an argument with a permanent error and no caller-side filter is recorded for it: a retry can never clear it")
 		}
